@@ -373,6 +373,7 @@ fn check_base64(ctx: &Ctx, total: &mut Report) {
             let case = json!({"type":"eval","source":src});
             match (&dec[i], &o) {
                 (_, Outcome::Panic(m)) => rep.violation(format!("C20/panic/{}", util::panic_site(m)), format!("`{src}`: {m}"), case),
+                (J::String(k), _) if k == "noncanonical" => rep.outcome("base64-noncanonical:dont-care"),
                 (J::String(_), o) => {
                     rep.outcome("base64-invalid");
                     if !o.is_fail() {
